@@ -39,6 +39,7 @@ try:
                               "stderr": r.stderr[-300:] if r.returncode == 2 else ""}
 finally:
     run(["git", "-C", "/repo", "checkout", "--", "."])
+    run(["git", "-C", "/verif", "checkout", "--", "evidence"])
 r = run(["/venv/bin/python", demo], cwd="/repo", env=env)
 out["demo_on_clean"] = r.returncode
 print(json.dumps(out, indent=1))
